@@ -4,6 +4,7 @@
 -/
 import Edn.Model.Number
 import Edn.Proofs.Bytes
+import Edn.Proofs.FloatAux3
 
 namespace Edn.Proofs
 open Edn.Model Edn.Spec Edn.Generated
@@ -13,26 +14,49 @@ open Edn.Model Edn.Spec Edn.Generated
 theorem pow10_table_exact : ∀ k, k ≤ 22 →
     decode (UInt64.ofNat (Tables.pow10Positive.getD k 0)) = (false, 10 ^ k, 1) ∨
     (∃ n d, decode (UInt64.ofNat (Tables.pow10Positive.getD k 0)) = (false, n, d) ∧ n = 10 ^ k * d ∧ 0 < d) := by
-  sorry
+  intro k hk
+  exact Or.inr (FloatAux.pow10_decode k hk)
 
 /-- `rne` depends only on the rational n/d -/
-theorem rne_scale (n d c : Nat) (hd : 0 < d) (hc : 0 < c) : rne (n * c) (d * c) = rne n d := by
-  sorry
+theorem rne_scale (n d c : Nat) (hd : 0 < d) (hc : 0 < c) : rne (n * c) (d * c) = rne n d :=
+  FloatAux.rne_scale n d c hd hc
 
 /-- `(double) m` is exact below 2^53 -/
 theorem ofNat_exact (m : Nat) (h : m < 2 ^ 53) :
-    ∃ n d, decode (Spec.ofNat m) = (false, n, d) ∧ n = m * d ∧ 0 < d := by
-  sorry
+    ∃ n d, decode (Spec.ofNat m) = (false, n, d) ∧ n = m * d ∧ 0 < d :=
+  FloatAux.ofNat_exact m h
 
 /-- the Clinger fast path is correctly rounded: for a mantissa below 2^53 and a decimal
     exponent in [-22, 22] it returns the double nearest to mant · 10^e (ties to even) -/
 theorem fast_path_correct (mant : Nat) (e : Int) (neg : Bool)
     (hm : mant ≤ 9007199254740991) (he : -22 ≤ e ∧ e ≤ 22) :
     parseDoubleFast mant e neg = some (withSign neg (ofDec mant e)) := by
-  sorry
+  obtain ⟨na, da, hda, hna, hdap⟩ := ofNat_exact mant (by omega)
+  obtain ⟨nb, db, hdb, hnb, hdbp⟩ := FloatAux.pow10_decode e.natAbs (by omega)
+  subst hna hnb
+  -- both operands are exact, so the single machine operation is one rounding of mant·10^e
+  have key : (if e < 0 then fdiv (Spec.ofNat mant) (UInt64.ofNat (Tables.pow10Positive.getD e.natAbs 0))
+      else fmul (Spec.ofNat mant) (UInt64.ofNat (Tables.pow10Positive.getD e.natAbs 0))) = ofDec mant e := by
+    unfold ofDec
+    by_cases hneg : e < 0
+    · have h3 : ¬ e ≥ 0 := by omega
+      have h4 : (-e).toNat = e.natAbs := by omega
+      rw [if_pos hneg, if_neg h3, h4]
+      exact FloatAux.fdiv_exact hda hdb hdap hdbp (Nat.pow_pos (by decide))
+    · have h3 : e ≥ 0 := by omega
+      have h4 : e.toNat = e.natAbs := by omega
+      rw [if_neg hneg, if_pos h3, h4]
+      exact FloatAux.fmul_exact hda hdb hdap hdbp
+  unfold parseDoubleFast
+  have h1 : (decide (e < -22) || decide (e > 22)) = false := by
+    simp only [Bool.or_eq_false_iff, decide_eq_false_iff_not]; omega
+  have h2 : ¬ mant > 9007199254740991 := by omega
+  rw [h1, if_neg (by decide), if_neg h2]
+  dsimp only
+  rw [key]
 
 /-- the two short-circuited ranges of `ofDecC` agree with `ofDec` -/
-theorem ofDecC_eq (mant : Nat) (e : Int) : ofDecC mant e = ofDec mant e := by
-  sorry
+theorem ofDecC_eq (mant : Nat) (e : Int) : ofDecC mant e = ofDec mant e :=
+  FloatAux.ofDecC_eq mant e
 
 end Edn.Proofs
